@@ -86,7 +86,8 @@ def one_d_vs_two_d(rep, rng, conf, tier):
     rep.coverage["radial_spread_K_" + conf] = float(spread)
     rep.coverage["t_nuc_1D_vs_2D_" + conf] = [float(r1["t_nuc"]), float(r2["t_nuc"])]
     if spread > 1e-6:
-        rep.violation("2D radial non-uniformity (in-place sweep)", "%s: with no radial heat flux the 2D temperature field is not radially uniform: spread %.3g K during cooling; "
+        # the known finding is the non-uniformity the in-place sweep produces in THESE pairs (0.2 - 0.7 K); anything larger is something else
+        rep.violation("2D radial non-uniformity (in-place sweep)" if spread <= 1.0 else "2D radial non-uniformity larger than the in-place sweep's", "%s: with no radial heat flux the 2D temperature field is not radially uniform: spread %.3g K during cooling; "
                       "t_nuc 1D %.2f min vs 2D %.2f min" % (lab, spread, float(r1["t_nuc"]), float(r2["t_nuc"])), dict(pair=lab, spread=float(spread)))
     if conf == "VISF":
         # evaporative cooling of the top surface at the end of the vacuum window (liquid stage), relative to the shelf-only run
